@@ -426,6 +426,41 @@ pub fn run(ctx: &mut Ctx) {
             eval_pixels(ctx, &vec![dark; len], w, "d.width_len_grid");
         }
     }
+    // well-formed symbols with surplus or missing pixels, and dimensions that agree with a symbol's modulo 256
+    for (i, r) in CAT.iter().enumerate() {
+        if !ctx.mine(i) {
+            continue;
+        }
+        let pl = Placement::for_row(r);
+        let img = render(r, &pl.fill(&ctx.rng.bytes(r.total())));
+        for extra in [1usize, 2, r.cols / 2, r.cols - 1, r.cols + 1, 2 * r.cols - 1] {
+            let mut a = img.clone();
+            a.extend((0..extra).map(|k| k % 2 == 0));
+            eval_pixels(ctx, &a, r.cols, "d.valid_symbol_with_surplus_pixels");
+        }
+        for cut in [1usize, 2, r.cols - 1, r.cols, r.cols + 1] {
+            let mut a = img.clone();
+            a.truncate(img.len() - cut);
+            eval_pixels(ctx, &a, r.cols, "d.valid_symbol_truncated");
+        }
+        for (dw, dh) in [(256usize, 0usize), (0, 256), (256, 256), (512, 0), (65536, 0)] {
+            let (w, h) = (r.cols + dw, r.rows + dh);
+            if w * h > 3_000_000 {
+                continue;
+            }
+            // the symbol in the top-left corner of a larger canvas, and a plain canvas
+            let mut a = vec![false; w * h];
+            for y in 0..r.rows {
+                for x in 0..r.cols {
+                    a[y * w + x] = img[y * r.cols + x];
+                }
+            }
+            eval_pixels(ctx, &a, w, "d.dimensions_congruent_mod_256");
+            eval_pixels(ctx, &vec![true; w * h], w, "d.dimensions_congruent_mod_256");
+            // same pixel count as the symbol-shaped prefix, read with the wrapped width
+            eval_pixels(ctx, &img, w, "d.dimensions_congruent_mod_256");
+        }
+    }
     for (i, r) in CAT.iter().enumerate() {
         let pl = Placement::for_row(r);
         let n = ctx.budget(16 * 12, 16 * 600);
